@@ -139,7 +139,7 @@ impl<T: Dump> Dump for darling::util::SpannedValue<T> {
         json!({"t": "spanned", "v": (**self).dump(), "span": crate::util::span_json(self.span())})
     }
 }
-impl<T: Dump> Dump for darling::util::WithOriginal<T, syn::Meta> {
+impl<T: Dump, O: ToTokens> Dump for darling::util::WithOriginal<T, O> {
     fn dump(&self) -> Value {
         json!({"t": "with_orig", "v": self.parsed.dump(), "toks": crate::util::toks_explicit(self.original.to_token_stream())})
     }
